@@ -52,10 +52,18 @@ INFO = dict(
              "scale composed with a point reflection; the norm-ratio fit cannot and does not claim to return it)",
              "'scale and similarity alignments reproduce the target's centroid and overall size' is read "
              "distributively: the one-parameter scale family reproduces size, the similarity centroid and size",
-             "generalized Procrustes: proved through its members (each transform is a similarity alignment; C08 owns "
-             "the iteration); here it is oracle-checked only",
-             "piecewise-affine theorems assume a conforming non-degenerate source triangulation (Delaunay contract); "
-             "points exactly on an edge are compared by value only (float containment may pick either triangle)"],
+             "thin-plate splines: the theorem covers the branch of _build_coefficients in which no singular value "
+             "falls below min_singular_val (then the truncated pseudo-inverse is the inverse); generated systems stay "
+             "20x above the 1e-4 threshold.  Below it the code deliberately drops directions and no longer "
+             "interpolates exactly (seen at 68 random landmarks in the unit square) - treated as the degenerate "
+             "case the quantifier excludes",
+             "generalized Procrustes is decided by the oracle only (each member transform is a similarity alignment "
+             "covered by the theorems; the iteration itself belongs to C08)",
+             "piecewise-affine theorems assume a conforming, non-degenerate source triangulation (Delaunay contract); "
+             "points exactly on an edge are compared by value only, and float containment excluding a point that "
+             "lies exactly on the hull boundary is counted, not judged",
+             "no-mirror rotation theorems are stated for 2-D and 3-D (the dimensions menpo's affine family supports); "
+             "the mirror-allowed, translation, affine, scale, similarity-centroid/size theorems are dimension-generic"],
     assumptions=["np.linalg.svd contract (orthogonal U, Vt; D >= 0 descending; U diag(D) Vt = M), verified to 1e-9 "
                  "against the exact correlation matrix on every rotation/similarity case",
                  "np.linalg.norm returns the non-negative square root (verified against the exact squared norm)",
